@@ -445,6 +445,47 @@ def truncated_case(recv_bytes, msg, m, j, tail, rng, cuts=()):
             'sealed': [[m.hex(), pt]], 'jsons': [js], 'conns': [conn]}
 
 
+def sequence_case(parts):
+    """several connections served one after the other by the SAME receiver (one long-lived instance): what an earlier
+    connection left behind — in particular one that was given up half-way — must not influence a later one."""
+    case = dict(parts[0])
+    case['kind'] = 'sequence'
+    case['sealed'] = [x for c in parts for x in c['sealed']]
+    case['jsons'] = []
+    for c in parts:
+        for js in c['jsons']:
+            if js not in case['jsons']:
+                case['jsons'].append(js)
+    case['conns'] = [x for c in parts for x in c['conns']]
+    case['parts'] = [c['kind'] for c in parts]
+    for k in ('msg', 'len', 'cuts', 'cut_at'):
+        case.pop(k, None)
+    return case
+
+
+def sequence_cases(ctx, msgs, bigs, n):
+    rng = ctx.rng
+    for _ in range(n):
+        recv_bytes = rng.choice((64, 64, 2048))
+        parts = []
+        for _ in range(rng.randrange(2, 6)):
+            msg, m = rng.choice(msgs + bigs[:1])
+            r = rng.random()
+            if r < 0.45:
+                j = rng.choice((0, 1, rng.randrange(0, len(m)), len(m) - 1, max(0, len(m) - rng.randrange(1, 52))))
+                parts.append(truncated_case(recv_bytes, msg, m, j, rng.choice(('eof', 'silent')), rng))
+            else:
+                k = rng.randrange(0, 4)
+                cuts = sorted(set(rng.randrange(1, len(m)) for _ in range(k)))
+                if rng.random() < 0.3 and len(m) > 60:
+                    cuts = sorted(set(cuts + [len(m) - rng.randrange(1, 52)]))
+                parts.append(deliver_case('random', recv_bytes, msg, m, cuts, rng))
+        # every sequence ends with a complete message: it must be delivered whatever came before
+        msg, m = rng.choice(msgs)
+        parts.append(deliver_case('random', recv_bytes, msg, m, sorted(set(rng.randrange(1, len(m)) for _ in range(rng.randrange(0, 3)))), rng))
+        yield sequence_case(parts)
+
+
 def cases(ctx: Ctx):
     rng = ctx.rng
     msgs = [(msg, seal(msg[1], rng_nonce(rng))) for msg in valid_plaintexts()]
@@ -495,6 +536,8 @@ def cases(ctx: Ctx):
         cuts = sorted(set(rng.randrange(1, len(m)) for _ in range(k)))
         yield deliver_case('random', rng.choice((64, 64, 2048, 17)), msg, m, cuts, rng,
                            addr=rng.choice([None, '10.7.7.7', '192.168.1.%d' % rng.randrange(256)]))
+    # sequences of connections on one long-lived receiver: given-up connections followed by complete messages
+    yield from sequence_cases(ctx, msgs, bigs, 600 if ctx.thorough else 120)
     # truncation at every byte, closed and silent
     tmsgs = [msgs[3]] + ([msgs[-1], bigs[0]] if ctx.thorough else [])
     for msg, m in tmsgs:
